@@ -535,7 +535,7 @@ func (m *Machine) load(th *Thread, p Value) Value {
 			m.goPanic("invalid memory address or nil pointer dereference")
 		}
 		if x.mon {
-			m.raceAccess(th, x, false)
+			m.raceAccessDeep(th, x, false)
 		}
 		return copyValue(x.v)
 	case *SymPtr:
@@ -552,7 +552,7 @@ func (m *Machine) store(th *Thread, p Value, v Value) {
 			m.goPanic("invalid memory address or nil pointer dereference")
 		}
 		if x.mon {
-			m.raceAccess(th, x, true)
+			m.raceAccessDeep(th, x, true)
 		}
 		m.storeCell(x, v)
 		return
